@@ -135,9 +135,13 @@ class NP:
         d, t = self.of(o)
         if to == d:
             return o
+        if "payload" in o.fields:
+            raise ShapeError("cast of an object array")
         return self.arr(to, (op, to, d, t), scalar=o.cls == "npscalar")
 
     def tolist(self, o):
+        if "payload" in o.fields:
+            return deep_copy(o.fields["payload"])
         d, t = self.of(o)
         return Obj("pyvalues", OrderedDict(term=Const(("tolist", d, t)), of=Const(d)))
 
@@ -179,6 +183,13 @@ class NP:
             # a plain python list held by a variable: numpy infers the dtype the model says
             base = self.arr(v.fields["dtype"].v, v.fields["term"].v)
             return base if dt is None or (isinstance(dt, Const) and dt.v is None) else self.astype(base, [dt], {})
+        if isinstance(v, (ListLit, TupS)) and (dt is None or (isinstance(dt, Const) and dt.v is None) or self.dtype_name(dt) == "object"):
+            # a python list of dicts / tuples (the nested structs of level 1.1 line records): an object array holding them
+            if not any(isinstance(x, (DictS, TupS, ListLit)) for x in v.elts):
+                raise ShapeError("np.array of a plain python list of scalars: the inferred dtype is not modelled")
+            o = self.arr("object", ("lit",))
+            o.fields["payload"] = deep_copy(v) if isinstance(v, ListLit) else ListLit([deep_copy(x) for x in v.elts])
+            return o
         if isinstance(v, Obj) and v.cls == "pyvalues":
             if dt is None:
                 raise ShapeError("np.array(<decoded list>) without a dtype: the inferred dtype is not modelled")
@@ -353,7 +364,12 @@ VARIABLES = [
     ("ok", ["rows"], "bool", "ndarray"),
     ("label", ["rows"], "U7", "ndarray"),
     ("scalar", [], "float32", "ndarray"),
+    # per-line nested structs of level 1.1 records: a python list of dicts of (value, attrs) pairs
+    ("attitude", ["rows"], "object", "objlist"),
 ]
+
+OBJECT_PAYLOAD = ListLit([DictS(OrderedDict([("pitch", TupS([Const(0.25), DictS(OrderedDict(units=Const("deg")))])), ("yaw", TupS([Const(-1.5), DictS(OrderedDict(units=Const("deg")))]))])),
+                          DictS(OrderedDict([("pitch", TupS([Const(0.5), DictS(OrderedDict(units=Const("deg")))])), ("yaw", TupS([Const(2.0), DictS(OrderedDict(units=Const("deg")))]))]))])
 
 
 def deep_copy(v):
@@ -476,7 +492,9 @@ class Model:
     def variable(self, name, dims, dtype, held, prefix=""):
         src = ("var", prefix + name)
         self.sources[src] = canonical_dtype(dtype)
-        if held == "ndarray":
+        if held == "objlist":
+            data = deep_copy(OBJECT_PAYLOAD)
+        elif held == "ndarray":
             data = self.np.arr(dtype, src)
         else:
             data = Obj("pylist", OrderedDict(dtype=Const(canonical_dtype(dtype)), term=Const(src)))
@@ -524,6 +542,8 @@ def describe(v, sources=None, depth=0):
         return ("tuple", tuple(describe(x, sources, depth + 1) for x in v.elts))
     if isinstance(v, DictS):
         return ("dict", tuple((k, describe(x, sources, depth + 1)) for k, x in v.items.items()))
+    if NP.is_arr(v) and "payload" in v.fields:
+        return ("ndarray", "object", describe(v.fields["payload"], sources, depth + 1))
     if NP.is_arr(v):
         d, t = NP.of(v)
         return ("ndarray", d, simplify(t))
@@ -537,7 +557,11 @@ def describe(v, sources=None, depth=0):
         return ("Array", tuple((k, describe(f[k], sources, depth + 1)) for k in ("url", "byte_ranges", "shape", "type_code") if k in f),
                 ("dtype", canonical_dtype(f["dtype"].v) if isinstance(f.get("dtype"), Const) and isinstance(f["dtype"].v, str) else describe(f.get("dtype"))[1] if isinstance(f.get("dtype"), Obj) else repr(f.get("dtype"))),
                 ("root", describe(fs.fields.get("path")) if isinstance(fs, Obj) and fs.cls == "DirFileSystem" else repr(fs)[:40]))
-    if isinstance(v, Obj) and v.cls in ("Group", "Variable"):
+    if isinstance(v, Obj) and v.cls == "Variable":
+        # data held as a python list of objects is what np.asarray makes of it (an object array of the same members)
+        return (v.cls, tuple((k, ("ndarray", "object", describe(x, sources, depth + 1)) if k == "data" and isinstance(x, ListLit) else describe(x, sources, depth + 1))
+                             for k, x in v.fields.items() if not isinstance(x, Fn)))
+    if isinstance(v, Obj) and v.cls == "Group":
         return (v.cls, tuple((k, describe(x, sources, depth + 1)) for k, x in v.fields.items() if not isinstance(x, Fn)))
     if isinstance(v, Obj):
         return (v.cls, tuple((k, describe(x, sources, depth + 1)) for k, x in v.fields.items() if not isinstance(x, Fn) and depth < 6))
@@ -574,6 +598,8 @@ def differences(a, b, where="", out=None, limit=12):
         if a[1] != b[1]:
             out.append(f"{where}: values of dtype {a[1]} come back as {b[1]}")
             return out
+        if a[1] == "object":
+            return differences(a[2], b[2], where, out, limit)  # python objects held by the array: compared member by member
         why = lossy_reason(b[2])
         if why is None:
             out.append(Undecided(f"{where}: the values come back as {_show(b[2])}; whether that composition is exact is not decided by the array algebra"))
